@@ -259,8 +259,9 @@ func (w *World) containerFields() map[string]string {
 					}
 					_ = u
 				}
-				if kind == "" || !mutated[f] {
-					continue // (a container that is only built and read is data, not state)
+				_ = kind
+				if !mutated[f] {
+					continue // (a field that is only set while its struct is built is data, not state)
 				}
 				out[short(p.PkgPath)+"."+tn.Name()+"."+f.Name()] = w.pos(f.Pos())
 			}
@@ -291,13 +292,13 @@ func checkContainerFields(c *Ctx, r *Report, clause string) {
 	for _, k := range ks {
 		sites = append(sites, got[k])
 		if _, ok := table[k]; !ok {
-			viol = fmt.Sprintf("%s: %s is a new map/sync/channel field (not in tables/statefields.json): container state that outlives a call - a memo, cache, seen-set or once-gate - can hand an answer computed for one input, pass or project to the next one", got[k], k)
+			viol = fmt.Sprintf("%s: %s is written after its struct was constructed and is not in tables/statefields.json: new state that outlives a call - a memo, cache, seen-set, once-gate, a collaborator swapped between passes - can hand an answer computed for one input, pass or project to the next one", got[k], k)
 		}
 	}
 	if len(got) < 10 {
 		viol = fmt.Sprintf("only %d container fields found (floor 10): the inventory saw nothing", len(got))
 	}
-	o := r.add(clause, "whowrites", "container-state-fields", fmt.Sprintf("the %d map/sync/channel typed struct fields of gleece are the reviewed ones", len(got)), []string{"tables/statefields.json"}, sites, viol)
+	o := r.add(clause, "whowrites", "container-state-fields", fmt.Sprintf("the %d struct fields of gleece that are written after construction are the reviewed ones", len(got)), []string{"tables/statefields.json"}, sites, viol)
 	o.NonTrivial = true
 }
 
